@@ -13,7 +13,7 @@ INTS = [
 STRS = [
     b'""', b'"A"', b'"ABC"', b'STRING$(255,"x")', b'CHR$(0)', b'CHR$(255)', b'CHR$(0)+CHR$(255)', b'"C:\\X"',
     b'"*.*"', b'"A:"', b'"CAS1:X"', b'"KYBD:"', b'"SCRN:"', b'"LPT1:"', b'"COM1:"', b'A$', b'SPACE$(100)', b'"1,2"',
-    b'"12:34:56"', b'"01-01-2000"', b'"DATA.TXT"', b'"PROG.BAS"', b'"RND.DAT"', b'"NOSUCH"', b'"..\\X"', b'"C:"',
+    b'"12:34:56"', b'"01-01-2000"', b'"DATA.TXT"', b'"PROG.BAS"', b'"PROGB"', b'"PROGP.BAS"', b'"RND.DAT"', b'"NOSUCH"', b'"..\\X"', b'"C:"',
     b'"AB:X"', b'":X"', b'"X=1"', b'"U10R10"', b'"CDEFGAB"', b'"MBO3L4C"', b'"###.##"', b'"&"', b'"!"',
     b'"\\  \\"', b'"a.b.c"', b'"LONGFILENAME.EXT"', b'CHR$(13)', b'CHR$(26)', b'"-1"', b'"99:99"', b'"13-32-1979"',
     b'"X"+CHR$(0)+"=Y"', b'"=Y"', b'"XA4"', b'"TA999"', b'"M+5,-5"', b'"N300"', b'"L0"', b'"T1"', b'"X"',
